@@ -315,6 +315,13 @@ func newWorld(c *Case) *world {
 	if c.Cache {
 		w.cache = sims.NewCache()
 		w.cache.Net = w.net
+		// every other history talks to a cache that reports its misses wrapped
+		// (errors.Is still says "miss")
+		sum := len(c.Shape)
+		for _, o := range c.Ops {
+			sum += o
+		}
+		w.cache.WrapMiss = sum%2 == 1
 		hf.Cache = w.cache
 	}
 	hf.DiscardCacheError = c.Discard
